@@ -371,6 +371,44 @@ def install_observers(algorithm, executor, cluster, job):
         except Exception as e:  # noqa: BLE001
             rec["near_miss_error"] = f"{type(e).__name__}: {e}"
 
+    if job.get("twice_seed"):
+        # seed the search with tests that call one bool-guarded function TWICE with the same variable (the
+        # predicate is executed twice by one test): local search flips the literal, the trial ties and is rejected
+        try:
+            import libcst as cst
+
+            from pynguin.testcase.localsearchstatement import set_literal_value
+            from pynguin.testcase.testcase import Statement
+
+            real_factory = algorithm.chromosome_factory
+            seeded, seen = [], set()
+            for _ in range(1500):
+                cand = real_factory.get_chromosome()
+                st = cand.test_case.statements()
+                if len(st) != 2 or st[0].bound_type is not bool or st[1].accessible is None:
+                    continue
+                call = cst.Module([]).code_for_node(st[1].node).strip()
+                fn = call.split("(")[0].split(".")[-1]
+                if fn in seen or not call.startswith(st[1].bound_variable + " = ") or not set_literal_value(cand.test_case, 0, True):
+                    continue
+                second = call.replace(st[1].bound_variable + " = ", "var_9 = ", 1)
+                cand.test_case.add_statement(Statement(node=cst.parse_statement(second), bound_variable="var_9",
+                                                       bound_type=st[1].bound_type, accessible=st[1].accessible))
+                cand.changed = True
+                seen.add(fn)
+                seeded.append(cand)
+                if len(seeded) >= job.get("twice_seed"):
+                    break
+
+            class SeededMany:
+                def get_chromosome(self):
+                    return seeded.pop(0) if seeded else real_factory.get_chromosome()
+
+            rec["twice_seeded"] = len(seeded)
+            algorithm.chromosome_factory = SeededMany()
+        except Exception as e:  # noqa: BLE001
+            rec["near_miss_error"] = f"{type(e).__name__}: {e}"
+
     a = getattr(algorithm, "_archive", None)
     if isinstance(a, arch.CoverageArchive):
         a.add_on_target_covered(lambda t: fired.append(gi(t)))
@@ -512,4 +550,4 @@ def extract(algorithm, suite, executor, cluster, job):
     return {"job": {k: v for k, v in job.items() if k not in ("_rec", "pre")},
             "arch": rec["arch"], "gm": rec["gm"], "pop": rec["pop"], "reexec": rec["reexec"],
             "reexec_checked": rec["reexec_checked"], "reexec_inconclusive": rec.get("reexec_inconclusive", 0),
-            "near_miss_injected": rec.get("near_miss_injected", False), "near_miss_error": rec.get("near_miss_error")}
+            "near_miss_injected": rec.get("near_miss_injected", False), "twice_seeded": rec.get("twice_seeded", 0), "near_miss_error": rec.get("near_miss_error")}
